@@ -39,7 +39,33 @@ class PackedLSTM(nn.Module):
         return self.out(h[-1])
 
 
+class SharedWeightLayer(nn.Module):
+    """a custom layer (no registered sampler) that uses the weight of a Linear defined elsewhere"""
+
+    def __init__(self, weight):
+        super().__init__()
+        self.weight = weight
+
+    def forward(self, x):
+        return torch.tanh(x) @ self.weight.t()
+
+
+class TiedCustom(nn.Module):
+    """nn.Linear first, then a custom layer sharing its weight: ghost clipping must refuse the model or clip with the norm of the TOTAL gradient"""
+
+    def __init__(self):
+        super().__init__()
+        self.lin = nn.Linear(4, 4, bias=False)
+        self.cus = SharedWeightLayer(self.lin.weight)
+        self.out = nn.Linear(4, 2)
+
+    def forward(self, x):
+        return self.out(self.cus(self.lin(x)))
+
+
 def make_model(kind, rank):
+    if kind == 'tied_custom':
+        return TiedCustom(), (4,), 'float'
     if kind == 'rnnpack':
         return PackedLSTM(), (4, 3), 'float'
     if kind == 'sublinear':
